@@ -720,7 +720,7 @@ struct C04 : public Driver {
         { int tot = 0; for (auto& e : encs) tot += e.second; int x = (int)g.below(tot); for (auto& e : encs) { if (x < e.second) { p["encoding"] = e.first; break; } x -= e.second; } }
         p["version"] = g.chance(35, 100) ? "1.1" : "1.0";
         // document type declaration, standalone, omitted XML declaration (the last only where a parser can still tell encoding and version)
-        { Rng gd = root.fork("decl"); static const std::vector<std::string> sys = { "a.dtd", "http://example.org/dtd/x y.dtd", "it's.dtd", "d&e.dtd", "x<y.dtd" }; static const std::vector<std::string> pub = { "-//SIM//DTD Doc 1.0//EN", "ISO/IEC 1:2:3", "pub'lic" };
+        { Rng gd = root.fork("decl"); static const std::vector<std::string> sys = { "a.dtd", "http://example.org/dtd/x y.dtd", "it's.dtd", "d&e.dtd", "x<y.dtd", "q\"uote.dtd" }; static const std::vector<std::string> pub = { "-//SIM//DTD Doc 1.0//EN", "ISO/IEC 1:2:3", "pub'lic" };
           if (gd.chance(1, 6)) { p["doctype_system"] = gd.pick(sys); if (gd.chance(1, 2)) p["doctype_public"] = gd.pick(pub); }
           if (gd.chance(1, 8)) p["standalone"] = gd.chance(1, 2) ? "yes" : "no";
           if (gd.chance(1, 8) && p.str("version") == "1.0" && (p.str("encoding") == "UTF-8" || p.str("encoding") == "utf-8")) p["omit_decl"] = true; }
